@@ -46,7 +46,7 @@ func init() {
 		Run: func(c *Ctx) {
 			runC19(c)
 			runC19Dispatch(c, "C19-DISPATCH")
-			importRules(c, "C06", func(s *Ctx) { runC06(s, "C06") }, "C19-KEEP", "a field whose @tag text is malformed (no key:\"value\" item) or whose span cannot be matched leaves the file intact: on every path the splice returns the bytes before the field, the (possibly unchanged) field text and the bytes after it (rules C06-SPLICE, C06-SPAN) — a path that returns nothing truncates the file", 2, ruleIn("C06-SPLICE", "C06-SPAN"))
+			importRules(c, "C06", func(s *Ctx) { runC06(s, "C06") }, "C19-KEEP", "a field whose @tag text is malformed (no key:\"value\" item) or whose span cannot be matched leaves the file intact: on every path the splice returns the bytes before the field, the (possibly unchanged) field text and the bytes after it (rules C06-SPLICE, C06-SPAN) — a path that returns nothing truncates the file", 2, ruleIn("C06-SPLICE", "C06-SPAN", "C06-ONLY"))
 		},
 	})
 }
@@ -100,6 +100,26 @@ func runC06(c *Ctx, prop string) {
 			}
 			if opens := callsIn(write, "os.Open"); len(opens) == 1 && opens[0].Call.Args[0] != write.Params[0] {
 				bad = append(bad, "the file opened for reading is not the input path")
+			}
+			// the whole file is read: ReadAll is given the opened file itself, not a limiting/partial reader
+			if rd := reads[0]; strings.HasSuffix(calleeName(&rd.Call), ".ReadAll") {
+				src := rd.Call.Args[0]
+				if mi, ok := src.(*ssa.MakeInterface); ok {
+					src = mi.X
+				}
+				fromOpen := false
+				if ex, ok := src.(*ssa.Extract); ok && ex.Index == 0 {
+					if oc, ok := ex.Tuple.(*ssa.Call); ok && (calleeName(&oc.Call) == "os.Open" || calleeName(&oc.Call) == "os.OpenFile") {
+						fromOpen = true
+					}
+				}
+				if !fromOpen {
+					what := "a derived reader"
+					if cl, ok := src.(*ssa.Call); ok {
+						what = calleeName(&cl.Call) + "(...)"
+					}
+					bad = append(bad, "ReadAll does not read the opened file itself but "+what+": a file larger than the reader lets through is written back truncated (and area offsets beyond it are out of range)")
+				}
 			}
 			// data written: phi over {read bytes, injectTag(phi, area)}
 			data := w.Call.Args[1]
